@@ -13,6 +13,11 @@ Inductive case :=
 | CSys (name : string) (f : N) (gate_ok w n c : bool)
 (* the entry script (all flags) calls native [contract].[method]/arity through System.Contract.Call asking for f *)
 | CNat (contract method : string) (arity f : N) (gate_ok w n c : bool)
+(* the same as CNat in a given chain state: hf = the hard-forks enabled (table of that hard-fork), wl = fee-whitelist
+   state of the called method (0 not whitelisted, 1 whitelisted with fee 0, 2 whitelisted with a positive fee) *)
+| CNatSt (hf wl : N) (contract method : string) (arity f : N) (gate_ok w n c : bool)
+(* a call into a contract blocked by Policy: ran = the blocked contract's code ran *)
+| CBlocked (ran : bool)
 (* a chain of calls: each hop (requested flags, kind) with kind 0 = non-safe forwarding method, 1 = forwarding method
    marked safe, 2 = forwarding through System.Runtime.LoadScript (deployed "load" method with r, then dynamic script
    asked for with r, which the code further restricts to ReadOnly); then the final hop (flags, final) with final 10 = Local.Put, 11 = Notify, 12 = call another contract,
@@ -43,6 +48,7 @@ Inductive case :=
 | CPermCall (perms : list permission) (c : callee) (m : string) (safe : bool) (halted : bool).
 
 Definition imp (a b : bool) : bool := implb a b.
+Definition faun_hf : N := 6.
 
 (* 2 whenever the specification is contradicted, even where the mechanism model predicts it (findings F6, F39) *)
 Definition code3 (model spec : bool) : N := if spec then (if model then 0 else 1) else 2.
@@ -71,6 +77,27 @@ Definition check_case (cs : case) : N :=
           let model := Bool.eqb gate_ok (native_gate f' e) && class && imp (negb gate_ok) (negb (w || n || c)) in
           code3 model spec
       end
+  | CNatSt hf wl ct m a f gate_ok w n c =>
+      match find_native ct m a (table_at hf native_methods_by_hf) with
+      | None => 3
+      | Some e =>
+          let f' := callee_flags AllFlags f (nm_safe e) in
+          let req := native_required_at hf e in
+          let wlst := match wl with 0 => None | 1 => Some 0 | _ => Some 7 end in
+          (* before Faun the historic tables let some methods notify with States only: consensus history, not judged *)
+          let strict := faun_hf <=? hf in
+          let spec := imp w (has f' WriteStates) && imp (n && strict) (has f' AllowNotify) &&
+                      (* before Aspidochelone deploy/update were only asked for States|AllowNotify although they call
+                         _deploy: consensus history (repaired by that hard-fork), not judged *)
+                      imp (c && negb (is_native_indirect_caller ct m) && (req =? nm_flags e)) (has f' AllowCall) &&
+                      imp (nm_safe e) (negb (w || (n && strict))) &&
+                      (* a refused flag condition of the table entry means no effect at all *)
+                      imp (negb (has f' req)) (negb (w || n || c)) in
+          let model := Bool.eqb gate_ok (gate_runs (native_call_gate req f' wlst 0)) &&
+                       imp (negb gate_ok) (negb (w || n || c)) in
+          code3 model spec
+      end
+  | CBlocked ran => if ran then 2 else 0
   | CChain hops ff final completed w n c =>
       let finstr :=
         match final with
